@@ -58,7 +58,12 @@ def specs(draw, tier):
         spec["periodic"] = [True] * dim if draw(st.integers(0, 2)) else [draw(st.booleans()) for _ in range(dim)]
         spec["n"] = draw(st.integers(1, 6))
         spec["threshold"] = draw(st.sampled_from(["auto", "auto", "extrema", "mean", "otsu"]))
-        spec["shapes"] = draw(st.sampled_from(["round", "bars"])) if dim >= 2 else "round"
+        spec["shapes"] = draw(st.sampled_from(["round", "bars", "band"])) if dim >= 2 else "round"
+        if spec["shapes"] == "band":  # the crest of an oblique plane wave: thin bands that wind around the periodic axes
+            spec["band"] = [draw(st.integers(0, 3)) for _ in range(dim)]
+            if not any(spec["band"]):
+                spec["band"][0] = 1
+            spec["band_width"] = draw(st.sampled_from([0.0, 0.3, 0.6]))
     if method == "peak-general":
         spec["kind"] = draw(st.sampled_from(["noise", "blob", "two-waves"]))
     return spec
@@ -203,6 +208,21 @@ class C17(Property):
                         mask[np.ix_(*[rng_cells(a, e, n, pa) for a, e, n, pa in zip(lo2, ext2, shape, per)])] = True
                 data = spec["amp"] * (mask.astype(float) + spec["offset"])
                 ctx.cls("bars")
+            band = spec.get("shapes") == "band"
+            if band:
+                # one or several thin bands crossing the periodic boundaries many times; each is one connected object whose pieces
+                # in the image must be put together whatever the position of the box relative to the pattern
+                arg = sum(2 * np.pi * m * i / n for m, i, n in zip(spec["band"], idx, shape))
+                mask = np.cos(arg) > spec["band_width"]
+                data = spec["amp"] * (mask.astype(float) + spec["offset"])
+                ctx.cls("band")
+                bars = True  # judged like the bar images (two-valued image, explicit component analysis)
+                if len(O.components(mask, per)) != 1:
+                    # several objects of exactly equal size whose equal-volume spheres overlap: every decision of the overlap filter
+                    # is a tie, so the count is not determined by the statement (it changes with rounding) - only images that
+                    # consist of one connected band are judged
+                    ctx.skip("band-with-several-components")
+                    return
             kw = {"threshold": spec["threshold"]}
             ctx.cls(f"thr:{spec['threshold']}")
             found = locate_droplets(ScalarField(grid, data), **kw)
@@ -225,7 +245,11 @@ class C17(Property):
             elif spec["threshold"] in ("auto", "extrema"):
                 t_mask = data > (data.min() + data.max()) / 2
             judge_shift = t_mask is not None and len(O.components(t_mask, per)) == n
-            if t_mask is not None and not judge_shift and bars:
+            if band:
+                # positions of winding objects are not specified, so the overlap filter may treat several of them differently
+                # after a translation: only images that consist of a single connected band are judged
+                judge_shift = t_mask is not None and len(O.components(t_mask, per)) == 1
+            if t_mask is not None and not judge_shift and bars and not band:
                 # the overlap filter removed something: the count is still translation invariant unless a decision of the greedy
                 # filter sits on a knife edge (tied volumes, a sphere distance equal to the sum of radii, a winding component)
                 comps = O.components(t_mask, per)
